@@ -5,7 +5,7 @@ read-size compositions / chunk sizes / algorithm names on the real hashing
 streams and drivers, vs hashlib / blake3 on the whole content.
 """
 
-CASE_TIMEOUT = 60  # seconds per pool task (the unchanged tree needs a small fraction of this)
+CASE_TIMEOUT = 20  # seconds per pool task (the unchanged tree needs a small fraction of this)
 
 import io
 import itertools
